@@ -207,5 +207,78 @@ def root_name(expr_src):
     return {'modfile': 'builddir'}.get(name, name) if name == 'modfile' else name
 
 
+REMOVERS = ('shutil.rmtree', 'os.remove', 'os.unlink', 'os.rmdir', 'os.removedirs')
+MAKERS = ('os.makedirs', 'os.mkdir')
+
+
+def r20_6(ctx):
+    """Ownership inside the shared cache directory, over all of compile.py:
+    (a) a process removes only what it created itself (paths derived from its own mkdtemp result) -- never paths found by
+        listing / globbing the cache directory, which may be the scratch area of a build that is running right now;
+    (b) nothing that the import system can load as the module is created under the cache directory before the finished
+        extension is published: a directory MODDIR/<modname> is a namespace package, importing it succeeds with an empty
+        module and the request never reaches the rebuild."""
+    unit = ctx.prog.unit(CP)
+    n_rm = n_mk = 0
+    for fi in ctx.prog.funcs_in(CP, include_nested=True):
+        ps = PathState(fi.node)
+        # names bound by iterating a listing of the cache directory
+        listed = set()
+        for s in own_nodes(fi.node):
+            it = tgt = None
+            if isinstance(s, ast.For):
+                it, tgt = s.iter, s.target
+            elif isinstance(s, ast.Assign) and len(s.targets) == 1:
+                it, tgt = s.value, s.targets[0]
+            if it is None:
+                continue
+            if any(isinstance(c, ast.Call) and (call_name(c) or '') in ('glob.glob', 'glob.iglob', 'os.listdir', 'os.scandir', 'os.walk') for c in ast.walk(it)):
+                for nm in ast.walk(tgt):
+                    if isinstance(nm, ast.Name):
+                        listed.add(nm.id)
+        for c in own_nodes(fi.node):
+            if not isinstance(c, ast.Call):
+                continue
+            nm = call_name(c) or ''
+            if nm in REMOVERS and c.args:
+                n_rm += 1
+                st = ps.state(c.args[0])
+                names = {x.id for x in ast.walk(c.args[0]) if isinstance(x, ast.Name)}
+                if st == 'TEMP':
+                    ctx.met('R20.6', fi.qual, src(c)[:90], c, 'removes the scratch directory this process created')
+                elif names & listed:
+                    ctx.violated('R20.6', fi.qual, src(c)[:90], c,
+                                 'removes a path obtained by listing the shared cache directory: it may be the scratch directory of another process that '
+                                 'is compiling the same form right now (its compiler then fails with a missing file)')
+                elif st == 'PUBLISHED':
+                    ctx.undecided('R20.6', fi.qual, src(c)[:90], c, 'removes a path inside the cache directory that this process did not create')
+                else:
+                    ctx.undecided('R20.6', fi.qual, src(c)[:90], c, 'provenance of the removed path unknown')
+            if nm in MAKERS + TEMP_SOURCES and (c.args or c.keywords):
+                # a directory whose name is exactly the module name, directly under the cache directory
+                target = c.args[0] if (nm in MAKERS and c.args) else kwarg(c, 'dir')
+                if target is None:
+                    continue
+                n_mk += 1
+                t = target
+                # resolve a local
+                if isinstance(t, ast.Name):
+                    defs = [s for s in own_nodes(fi.node) if isinstance(s, ast.Assign) and len(s.targets) == 1 and src(s.targets[0]) == t.id]
+                    if len(defs) == 1:
+                        t = defs[0].value
+                shadow = isinstance(t, ast.Call) and call_name(t) == 'os.path.join' and len(t.args) == 2 and ps.state(t.args[0]) == 'PUBLISHED' \
+                    and isinstance(t.args[1], ast.Name) and t.args[1].id in ('modname', 'name', 'module_name')
+                if shadow:
+                    ctx.violated('R20.6', fi.qual, src(c)[:90], c,
+                                 'creates the directory %s inside the cache directory (which is on sys.path): a directory named like the module is a '
+                                 'namespace package, so after a crash that leaves it behind `import %s` succeeds with an empty module and the form is '
+                                 'never rebuilt' % (src(t), src(t.args[1])))
+                else:
+                    ctx.met('R20.6', fi.qual, src(c)[:90], c, 'does not create an importable name for the module')
+    ctx.floor('R20.6', 'removal sites in compile.py', n_rm, 1)
+    ctx.floor('R20.6', 'directory creation sites in compile.py', n_mk, 1)
+
+
 def run(ctx):
     r20(ctx)
+    r20_6(ctx)
